@@ -57,4 +57,15 @@ theorem filtered_size_zero_iff_generated (win : Bool) (name : String) (stack : L
   ⟨filtered_size_zero_iff win name stack ((eol_map_gen_eq win _).1 h) d,
    (stat_size_canonical win name stack ((eol_map_gen_eq win _).1 h) d).1⟩
 
+/-- "a fresh checkout reports no changes" through every comparison route, for
+the regenerated table -/
+theorem checkout_clean_every_route_generated {H : Type} [DecidableEq H] (sha : Bytes → H)
+    (win : Bool) (name : String) (stack : List Filter) (h : (name, stack) ∈ eolMapGen win)
+    (c : Bytes) (hn : hasNul c = false) (hc : readIn stack c = c)
+    (hx : lossy stack = true → noCrCrLf false c = true) :
+    reportsChange sha stack (sha c) (writeOut stack c) = false ∧
+    contentMatches sha .off stack c.length (sha c) (writeOut stack c) = true ∧
+    contentMatches sha .filtered stack c.length (sha c) (writeOut stack c) = true :=
+  checkout_clean_every_route sha win name stack ((eol_map_gen_eq win _).1 h) c hn hc hx
+
 end BreezyVerif.C45
